@@ -23,6 +23,7 @@ pub mod c18;
 pub mod c19;
 pub mod c20;
 pub mod lzgen;
+pub mod poison;
 pub mod calibrate;
 
 pub fn run(prop: &str, cx: &mut Ctx) -> bool {
